@@ -417,10 +417,26 @@ func (h *hist) nextTx(t *rapid.T) (txSpec, bool) {
 			return txSpec{x.Owner, h.enc(&tokenv1.MsgMintToken{Coin: sdk.NewInt64Coin(x.MinUnit, int64(rapid.IntRange(1, 100000).Draw(t, "amt"))), Receiver: h.addr(h.user(t, "rcpt")), Owner: h.addr(x.Owner)})}, true
 		case a == 2:
 			x := pick(t, "tok", w.tokens)
-			return txSpec{x.Owner, h.enc(&tokenv1.MsgBurnToken{Coin: sdk.NewInt64Coin(x.MinUnit, int64(rapid.IntRange(1, 50).Draw(t, "amt"))), Sender: h.addr(x.Owner)})}, true
+			amt := sdkmath.NewInt(int64(rapid.IntRange(1, 50).Draw(t, "amt")))
+			if rapid.Bool().Draw(t, "burnmost") { // burn most of what the owner holds: lets a later edit lower the cap below the initial supply
+				if bal := h.n.App.BankKeeper.GetBalance(ctx, h.n.Users[x.Owner].Addr, x.MinUnit).Amount; bal.GT(sdkmath.NewInt(10)) {
+					amt = bal.MulRaw(int64(rapid.IntRange(5, 10).Draw(t, "tenths"))).QuoRaw(10)
+				}
+			}
+			return txSpec{x.Owner, h.enc(&tokenv1.MsgBurnToken{Coin: sdk.NewCoin(x.MinUnit, amt), Sender: h.addr(x.Owner)})}, true
 		case a == 3:
 			x := pick(t, "tok", w.tokens)
-			return txSpec{x.Owner, h.enc(&tokenv1.MsgEditToken{Symbol: x.Symbol, Name: fmt.Sprintf("T%d", s), MaxSupply: uint64(rapid.IntRange(0, 3).Draw(t, "max")) * 50000000, Mintable: tokentypes.Bool(pick(t, "mint", []string{"", "true", "false"})), Owner: h.addr(x.Owner)})}, true
+			if tk, err := k.Token.GetToken(ctx, x.Symbol); err == nil && rapid.Bool().Draw(t, "tightcap") {
+				// a cap between what circulates now and what was issued initially (reachable after burns)
+				scale := sdkmath.NewIntWithDecimal(1, int(tk.GetScale()))
+				circ := h.n.App.BankKeeper.GetSupply(ctx, tk.GetMinUnit()).Amount
+				circMain := circ.Add(scale).SubRaw(1).Quo(scale)
+				if circMain.IsUint64() && circMain.Uint64() < tk.GetInitialSupply() && circMain.IsPositive() {
+					max := circMain.Uint64() + uint64(rapid.Uint64Range(0, tk.GetInitialSupply()-circMain.Uint64()-1).Draw(t, "cap"))
+					return txSpec{x.Owner, h.enc(&tokenv1.MsgEditToken{Symbol: x.Symbol, Name: "[do-not-modify]", MaxSupply: max, Mintable: tokentypes.Bool(""), Owner: h.addr(x.Owner)})}, true
+				}
+			}
+			return txSpec{x.Owner, h.enc(&tokenv1.MsgEditToken{Symbol: x.Symbol, Name: fmt.Sprintf("T%d", s), MaxSupply: pick(t, "max", []uint64{0, 0, 50000000, 100000000, 150000000, 1, 1000, 50000}), Mintable: tokentypes.Bool(pick(t, "mint", []string{"", "true", "false"})), Owner: h.addr(x.Owner)})}, true
 		default:
 			x := pick(t, "tok", w.tokens)
 			return txSpec{x.Owner, h.enc(&tokenv1.MsgTransferTokenOwner{SrcOwner: h.addr(x.Owner), DstOwner: h.addr(h.user(t, "dst")), Symbol: x.Symbol})}, true
